@@ -326,7 +326,7 @@ def run(ctx: Ctx) -> None:
     ctx.cov["static_validate_scan"] = scan
     ctx.partial += [
         "C05.tokens (every href/src the parser stores went through normalizeLink and validateLink) is a theorem for autolinks in the "
-        "modelled inline sub-parser (C05.xmini_hrefs) and for inline / reference links under the hypothesis that env's references are acceptable (C05.link_hrefs); for image, the reference block rule and linkify it is carried by the oracle on tokens/HTML and the advisory AST scan",
+        "modelled inline sub-parser (C05.xmini_hrefs) and for inline / reference links and images (src, at every depth of nested descriptions) under the hypothesis that env's references are acceptable (C05.link_hrefs, C05.image_hrefs); for the reference block rule and linkify it is carried by the oracle on tokens/HTML and the advisory AST scan",
         "the linkifier clause cannot be exercised: linkify-it-py is not installed in this sandbox",
         "normalizeLink = encode ∘ reformat with reformat (mdurl.parse/format, punycode) an external parameter: the theorems hold "
         "for every reformat",
